@@ -953,7 +953,7 @@ Section NumVisit.
       get_neighbor_weights g u (successors g) n2c = Ok w0 /\
       (if directed (sp g) then add_predecessor_weights g u (predecessors g) n2c w0 else Ok w0) = Ok w2c /\
       NoDup (keys w2c) /\
-      (forall c, In c (keys w2c) -> exists l1, nth_error I1 c = Some l1) /\
+      (forall c, In c (keys w2c) -> exists l v, nth_error I c = Some l /\ In v l) /\
       (forall c l1, nth_error I1 c = Some l1 -> ~ In u l1 /\ valQ c w2c == btw u l1).
   Proof.
     intros P I n2c u own iO I1 HS Hu Hown HO HI1.
@@ -963,8 +963,8 @@ Section NumVisit.
     { apply Hnames. exact Hu. }
     { intros v Hv. apply (si_dom _ _ _ _ _ HS). apply Hnames. exact Hv. }
     exists w0, w2c. split; [exact Hw0|]. split; [exact Hw2|]. split; [exact Hnd|]. split.
-    - intros c Hc. destruct (Hrange c Hc) as [v [_ Hl]]. apply (si_L1 _ _ _ _ _ HS) in Hl. destruct Hl as [l [Hl _]].
-      rewrite NI1. destruct (Nat.eqb c own); eauto.
+    - intros c Hc. destruct (Hrange c Hc) as [v [_ Hl]]. apply (si_L1 _ _ _ _ _ HS) in Hl. destruct Hl as [l [Hl Hv]].
+      exists l, v. split; assumption.
     - intros c l1 Hc. rewrite NI1 in Hc. destruct (Nat.eqb c own) eqn:Eco.
       + apply Nat.eqb_eq in Eco. subst c. inversion Hc. subst l1. split; [rewrite In_set_remove; intuition|].
         rewrite (Hval own). symmetry. rewrite <- (between_q g u n2c own (set_remove u (set_remove u iO))).
@@ -1077,7 +1077,13 @@ Section NumVisit.
       ((ls_moves s' = ls_moves s /\ ls_inner s' = ls_inner s /\ ls_node2com s' = ls_node2com s /\
         ls_improved s' = ls_improved s) \/
        (ls_moves s' = S (ls_moves s) /\ ls_improved s' = true /\ 0 < m /\
-        Phi dirg (ls_inner s) < Phi dirg (ls_inner s'))).
+        Phi dirg (ls_inner s) < Phi dirg (ls_inner s') /\
+        exists own bc iO C v,
+          lookup Nat.eqb u (ls_node2com s) = Some own /\ bc <> own /\
+          nth_error (ls_inner s) own = Some iO /\ nth_error (ls_inner s) bc = Some C /\ In v C /\
+          forall j, nth_error (ls_inner s') j =
+                    if Nat.eqb j bc then Some (set_add Nat.eqb u C)
+                    else if Nat.eqb j own then Some (set_remove u iO) else nth_error (ls_inner s) j)).
   Proof.
     intros s u Hu HS HN. pose proof HS as [SLen SDom SL1 SNd SL2].
     destruct (lookup Nat.eqb u (ls_node2com s)) as [own|] eqn:Hown;
@@ -1091,11 +1097,13 @@ Section NumVisit.
     destruct (candidates_spec _ _ _ u own iO I1 HS Hu Hown HO HI1) as [w0 [w2c [Hw0 [Hw2 [Hnd [Hrange Hval]]]]]].
     assert (Hun : In u nms) by (apply Hnames; exact Hu).
     destruct (subtract_ok _ _ own u iO I1 HN HO HuO Hun HI1) as [di1 [Hsub [HN1 [Hdu Hdd]]]].
-    destruct (update_best_com_total own w2c di1 m res dirg (gain_total_cands I1 di1 w2c HN1 Hrange))
+    assert (Hrange1 : forall c, In c (keys w2c) -> exists l1, nth_error I1 c = Some l1).
+    { intros c Hc. destruct (Hrange c Hc) as [l [_ [Hl _]]]. rewrite NI1. destruct (Nat.eqb c own); eauto. }
+    destruct (update_best_com_total own w2c di1 m res dirg (gain_total_cands I1 di1 w2c HN1 Hrange1))
       as [bc [tie [Hupd Hbc]]].
     assert (HD1 : nth_error I1 own = Some (set_remove u iO)) by (rewrite NI1, Nat.eqb_refl; reflexivity).
     assert (HbcR : exists C, nth_error I1 bc = Some C).
-    { destruct Hbc as [Hbc|Hbc]; [subst bc; eauto | apply Hrange; exact Hbc]. }
+    { destruct Hbc as [Hbc|Hbc]; [subst bc; eauto | apply Hrange1; exact Hbc]. }
     destruct HbcR as [C HC]. destruct (Hval bc C HC) as [HuC _].
     assert (Hltb : (bc < length I1)%nat) by (apply nth_error_Some; congruence).
     destruct (set_nth_Some bc (set_add Nat.eqb u C) I1 Hltb) as [I2 HI2].
@@ -1151,6 +1159,12 @@ Section NumVisit.
         destruct (decision I1 di1 u w2c own bc tie C (set_remove u iO) HN1 Hnd Hval Hdu Hdd Hupd Ebo HC HD1) as [Hmpos Hdec].
         split; [exact Hmpos|].
         assert (Hm0 : ~ m == 0) by (intro E; rewrite E in Hmpos; discriminate).
+        assert (Hwit : exists v, In v C).
+        { destruct Hbc as [Hbc|Hbc]; [contradiction|]. destruct (Hrange bc Hbc) as [l [v [Hl Hv]]].
+          rewrite HCs in Hl. inversion Hl. subst l. eauto. }
+        destruct Hwit as [v Hv].
+        split; [|exists own, bc, iO, C, v; split; [reflexivity|]; split; [exact Ebo|]; split; [exact HO|];
+                 split; [exact HCs|]; split; [exact Hv|]; intro j; rewrite NI2, NI1; reflexivity].
         assert (HuD : ~ In u (set_remove u iO)) by (rewrite In_set_remove; intuition).
         pose proof (Phi_move dirg (ls_inner s) I1 I2 own bc iO C u Ebo HO HCs HuO HuC NI1 NI2) as HPhi.
         destruct dirg.
